@@ -128,7 +128,14 @@ def _scan():
     for name, mod in list(sys.modules.items()):
         if not (name == "basictdf" or name.startswith("basictdf.")) or mod is None:
             continue
-        for _, obj in list(vars(mod).items()):
+        for vname, obj in list(vars(mod).items()):
+            if not vname.startswith("__") and _mutable(obj) and id(obj) not in seen:
+                # a module-level container (a cache, a registry): part of the library's state like class attributes and default arguments
+                try:
+                    found.append((obj, copy.deepcopy(obj)))
+                    seen.add(id(obj))
+                except Exception:  # noqa - something that cannot be copied cannot be put back either
+                    pass
             objs = [obj]
             if inspect.isclass(obj) and getattr(obj, "__module__", "").startswith("basictdf"):
                 for _, attr in list(vars(obj).items()):
